@@ -15,6 +15,7 @@
 
 """Generate model tensor level quantization config."""
 
+import collections
 import copy
 from typing import Any, Optional, Union
 
@@ -316,12 +317,37 @@ class ParamsGenerator:
         _QuantTrans.QUANTIZE_TENSOR,
         _QuantTrans.ADD_DEQUANTIZE,
     )
+    buffer_referents = collections.Counter(
+        tensor.buffer
+        for subgraph in self.flatbuffer_model.subgraphs
+        for tensor in subgraph.tensors
+    )
     for subgraph in self.flatbuffer_model.subgraphs:
       for tensor in subgraph.tensors:
         if id(tensor) in checked_tensors:
           continue
         if self.flatbuffer_model.buffers[tensor.buffer].data is None:
           continue
+        # The tensor itself may be requested to be quantized (a graph output
+        # under a rule that covers the model outputs). Nobody compared that
+        # request with the other tensors over the same buffer.
+        own_params = self.model_quant_results.get(
+            tfl_flatbuffer_utils.get_tensor_name(tensor)
+        )
+        if (
+            own_params is not None
+            and buffer_referents[tensor.buffer] > 1
+            and any(
+                consumer.transformations[0] in rewriting_transformations
+                for consumer in own_params.consumers or []
+            )
+        ):
+          raise RuntimeError(
+              f'The tensor {tensor.name} is not read by an op but would be'
+              ' quantized, and it shares its buffer with other tensors.'
+              ' Please modify your quantization recipe or give it its own'
+              ' buffer.'
+          )
         for sharer in self.buffer_to_tensors.get(tensor.buffer, []):
           sharer_params = self.model_quant_results.get(
               tfl_flatbuffer_utils.get_tensor_name(sharer)
